@@ -18,8 +18,7 @@ def run(ctx):
     scen += wlfam.line_scenarios(rng, quick, None if quick else wlfam.shipped_lists(ctx))
     files, cells, leaves = wlfam.run_scenarios(ctx, scen, "c04")
     verdicts, decided = wlfam.validate(ctx, files)
-    if decided < max(5, cells // 5) and not ctx.violations:
-        raise vlib.Undecided("only %d of %d cells gave an exact distribution (the scripted source no longer drives the generator?)" % (decided, cells))
+    too_few = decided < max(5, cells // 5)
     ctx.evaluations = leaves
     ctx.nontrivial = decided
     ctx.cover.update(cells=cells, leaves=leaves, cells_with_exact_distribution=decided)
@@ -28,6 +27,8 @@ def run(ctx):
     ctx.absorb(verdicts, files, wlfam.describe_wl)
     drawfam.opaque_reads(ctx, rng, 16384)
     biased = drawfam.draw_conformance(ctx, wlfam.bounds_seen(files) | {18325, 10129}, "wordlist recipes")
+    if too_few and not ctx.violations:    # (decided only now: a sampler that no longer reads whole words is the draw conformance's business)
+        raise vlib.Undecided("only %d of %d cells gave an exact distribution (the scripted source no longer drives the generator?)" % (decided, cells))
     ctx.assumptions += ["C01 for index -> probability 1/n (the bounds used here, incl. the shipped list sizes, are checked against Draw.tla)",
                         "separator recipes with requirements are checked for structure only (an exhausted attempt budget yields an empty separator)"]
     return ("TLC sums exact leaf masses of %d complete choice trees of the real WLRecipe.Generate (%d leaves): all passwords equally likely and their "
